@@ -113,6 +113,10 @@ class Ctx:
         for c in conds:
             if c[0] == "eq":
                 s.add_eq(as_poly(c[1]) - as_poly(c[2]))
+                # the same equation over the normal forms of the terms it reads (empty operands, constant arrays)
+                d = normalise_poly(s, as_poly(c[1]) - as_poly(c[2]))
+                if isinstance(d, Poly):
+                    s.add_eq(d)
             elif c[0] == "bound":
                 s.add_bound(c[1], c[2])
                 # every element (in particular the maximum) is below the bound
@@ -1429,7 +1433,7 @@ def native_functor_guard(c, a, st, v):
         for leg in ("sources", "targets"):
             for lf in leaves:
                 if lf[1][-1] == leg and len(lf[1]) == 3:
-                    for fkey in functor_keys(st):
+                    for fkey in functor_keys(st) or [contracts_key(a.get("functor"))]:
                         el = ("LFobj", "map_object", fkey, ("elem", nodes_t))
                         for sizes in (("lens", ("lmap", nodes_t, ("seq", el)), el), ("lens", nodes_t, el)):
                             conds.append(("eq", t_len(lf), t_sum(("gather", sizes, ("flat", adj, ("el", adj, leg))))))
@@ -1451,7 +1455,7 @@ def native_functor_guard(c, a, st, v):
         sizes_ok, labels_ok = False, False
         got_sizes = ic_sizes(wit)
         got_labels = mk_gather(st, normalise(st, hyp(res).f["nodes"].t), normalise(st, tab(wit.f["values"])))
-        for fkey in functor_keys(st) or ["functor"]:
+        for fkey in functor_keys(st) or [contracts_key(a.get("functor"))]:
             el = ("LFobj", "map_object", fkey, ("elem", nodes_t))
             for sizes in (("lens", ("lmap", nodes_t, ("seq", el)), el), ("lens", nodes_t, el)):
                 if terms_equal(st, got_sizes, sizes):
@@ -1506,6 +1510,13 @@ def loopvar_leaves(st, fn_suffix, var):
             out.add(t)
     _walk_terms(st, visit)
     return sorted(out, key=repr)
+
+
+def contracts_key(v):
+    """The name a user-supplied functor argument carries in LFobj / Fmap terms."""
+    if isinstance(v, VUser):
+        return v.key
+    return "functor"
 
 
 def functor_keys(st):
